@@ -400,7 +400,7 @@ def main():
         props = {"obligations": len(names), "discharged": 0, "theorems": names, "assumptions": {},
                  "cmd": "coqc props/C20.v", "log": "%s\n%s" % (build_err.what, build_err.log), "ok": False}
     else:
-        props = C.compile_props(CID)
+        props = I.apply_poison(C.compile_props(CID))
     have_oracle = os.path.exists(os.path.join(C.BIN, "oracle_" + I.AREA))
     tot = new_out()
     spaces, n_reg, cov_summary = [], 0, {"available": False}
